@@ -3,7 +3,7 @@ from .mcommon import *
 from .ucommon import uroles
 from .roles import adt_of
 from .facts import strip_generics, Operand, Place
-from .analysis import sources
+from .analysis import result_matches, sources
 from .engine import Undecided
 
 TECHNIQUE = 'decision-table extraction by constrained CFG exploration of the (runtime, duration) matches, def-use origin of the arguments at the apply_timeout call sites, struct-field coverage of the build() test, error-discipline rule on every apply_timeout result'
@@ -58,9 +58,18 @@ def is_zero_test(an, blk):
     t = blk.term
     if t.kind != 'switch' or t.j.get('dty') != 'bool':
         return False
-    src = sources(an, t.discr)
-    return any(s[0] == 'call' and s[1] == 'std::time::Duration::as_nanos' for s in src) and any(s[0] == 'bin' and s[1] == 'Eq' for s in src) and \
-        any(s[0] == 'const' and s[1] == '0_u128' for s in src)
+    return zero_duration_test(sources(an, t.discr))
+
+
+ZERO_CALLS = {'std::time::Duration::as_nanos', 'std::time::Duration::is_zero'}
+
+
+def zero_duration_test(src):
+    """does this set of origins describe `d.as_nanos() == 0` or its std synonym `d.is_zero()`?"""
+    calls = {s[1] for s in src if s[0] == 'call'}
+    if calls == {'std::time::Duration::is_zero'}:
+        return not any(s[0] == 'bin' for s in src)
+    return calls == {'std::time::Duration::as_nanos'} and {s[1] for s in src if s[0] == 'bin'} == {'Eq'} and any(s[0] == 'const' and s[1] == '0_u128' for s in src)
 
 
 def events_in(an, blocks, body):
@@ -94,8 +103,27 @@ def run(ctx):
     r = roles(ctx)
     prog = ctx.prog
     root = r.TIMEOUT_GET
-    an = prog.an(root)
+    top = root
     ctx.saw(root)
+    # the permit may be acquired in an async helper of the getter: the body with the try_acquire is where the mode is decided
+    holders = [prog.bodies[p] for p in r.GETTER if prog.bodies[p].is_coroutine and any(r.is_sem_call(prog.bodies[p], blk.term, 'try_acquire') and not blk.cleanup for blk in prog.bodies[p].blocks)]
+    if len(holders) == 1 and holders[0].path != top.path:
+        root = holders[0]
+        ctx.saw(root)
+        tan = prog.an(top)
+        polls = [blk for blk in top.blocks if blk.term.kind == 'call' and not blk.cleanup and blk.term.rcallee == root.path]
+        pops_top = [blk.idx for blk, m in queue_calls(r, top, tan) if m.startswith('pop')]
+        okh = len(polls) == 1
+        stray = []
+        if okh:
+            pre = tan.reach([0], ('normal',), avoid=pops_top)
+            loop = tan.reach_after(polls[0].idx, ('normal',), avoid=pops_top)
+            for x in pre:
+                if top.blocks[x].term.kind == 'yield' and not (polls[0].idx in tan.reach_after(x, ('normal',), avoid=pops_top) and x in loop and polls[0].idx in (tan.doms(('normal',)).get(x) or ())):
+                    stray.append(top.blocks[x].term.line)
+        ctx.ob('R10.1', 'the getter only awaits its permit helper before it reaches the idle queue', okh and not stray, ctx.where(top, polls[0].term.line if polls else None),
+               'suspension points that do not belong to the await of %s: %s' % (root.name, stray), construct='nonblocking:helper-await')
+    an = prog.an(root)
 
     # ---- R10.1 non-blocking mode ---------------------------------------------------------------
     tacq = [blk for blk in root.blocks if r.is_sem_call(root, blk.term, 'try_acquire') and not blk.cleanup]
@@ -116,12 +144,12 @@ def run(ctx):
             src = sources(an, sw.term.discr)
             fields = {s[1] for s in src if s[0] in ('field', 'upvar')}
             for s in list(src):
-                if s[0] == 'call' and s[1] == 'std::time::Duration::as_nanos':
+                if s[0] == 'call' and s[1] in ZERO_CALLS:
                     fields |= {s2[1] for s2 in sources(an, root.blocks[s[2]].term.args[0]) if s2[0] in ('field', 'upvar')}
             calls = {s[1] for s in src if s[0] == 'call'}
             consts = {s[1] for s in src if s[0] == 'const'}
             bins = {s[1] for s in src if s[0] == 'bin'}
-            ok = any(f.endswith('.wait') for f in fields) and calls == {'std::time::Duration::as_nanos'} and '0_u128' in consts and 'false' in consts and bins == {'Eq'}
+            ok = any(f.endswith('.wait') for f in fields) and zero_duration_test(src) and 'false' in consts
             ctx.ob('R10.1', 'non-blocking = wait is Some(d) and d.as_nanos() == 0', ok, ctx.where(root, sw.term.line),
                    'test built from fields %s, calls %s, constants %s, operators %s' % (sorted(fields), sorted(calls), sorted(consts), sorted(bins)), construct='nonblocking:test',
                    sites=sorted(calls) + sorted(consts))
@@ -222,11 +250,28 @@ def run(ctx):
     COLLAPSE = {'std::result::Result::is_err', 'std::result::Result::is_ok', 'std::result::Result::ok', 'std::result::Result::err', 'std::result::Result::unwrap_or',
                 'std::result::Result::unwrap_or_default', 'std::result::Result::unwrap_or_else', 'std::mem::drop', 'std::result::Result::unwrap', 'std::result::Result::expect'}
     atp = at.path
+    # async helpers that hand the wrapper's result on unchanged carry it: their callers are held to the same rule
+    carriers = {atp}
+    grew = True
+    while grew:
+        grew = False
+        for p in r.GETTER:
+            b = prog.bodies[p]
+            if p in carriers or not b.is_coroutine:
+                continue
+            ban = prog.an(b)
+            for blk in b.blocks:
+                if blk.term.kind == 'call' and not blk.cleanup and blk.term.rcallee in carriers:
+                    rets = [s for x in b.blocks if not x.cleanup for s in x.stmts if s.kind == 'assign' and s.place.local == 0 and not s.place.proj]
+                    if rets and all(s.rv.kind == 'use' and any(y[0] == 'call' and y[2] == blk.idx for y in sources(ban, s.rv.ops[0])) for s in rets):
+                        carriers.add(p); grew = True
     for p in r.GETTER:
         b = prog.bodies[p]
         ban = prog.an(b)
-        polls = [blk for blk in b.blocks if blk.term.kind == 'call' and not blk.cleanup and blk.term.rcallee == atp]
+        polls = [blk for blk in b.blocks if blk.term.kind == 'call' and not blk.cleanup and blk.term.rcallee in carriers]
         for pl in polls:
+            if p in carriers:
+                continue
             role = 'recycler' if manager_calls(b, MANAGER_RECYCLE) else ('creator' if manager_calls(b, MANAGER_CREATE) else 'getter')
             consumers = []
             for blk in b.blocks:
@@ -371,8 +416,16 @@ def run(ctx):
             ok = any(x[0] == 'upvar' and x[1].startswith('duration') for x in s0) and any(x[0] == 'upvar' and x[1].startswith('future') for x in s1)
         ctx.ob('R10.8', 'Tokio1: Runtime::timeout calls tokio::time::timeout(duration, future)', ok, ctx.where(rt), '', construct='runtime:tokio-timeout')
         oks = [blk for blk in rt.blocks if blk.term.kind == 'call' and not blk.cleanup and 'std::result::Result::ok' in blk.term.callee_names()]
-        ctx.ob('R10.8', 'Elapsed maps to None, completion to Some (Result::ok)', len(oks) == 1 and bool(calls) and ran.dominates(calls[0].idx, oks[0].idx) if oks else False,
-               ctx.where(rt), '', construct='runtime:elapsed-none')
+        ok8 = len(oks) == 1 and bool(calls) and ran.dominates(calls[0].idx, oks[0].idx) if oks else False
+        if not oks:
+            # the same mapping written as a match: Ok(v) => Some(v), Err(_) => None
+            for sw_, okr, err in result_matches(ran, lambda n: n == 'tokio::time::timeout'):
+                def made(region):
+                    return sorted(s.rv.j['variant'] for x in region for s in rt.blocks[x].stmts if s.kind == 'assign' and s.rv.kind == 'agg' and s.rv.j.get('adt') == 'std::option::Option')
+                some_from_ok = any(s.kind == 'assign' and s.rv.kind == 'agg' and s.rv.j.get('adt') == 'std::option::Option' and s.rv.j['variant'] == 'Some' and
+                                   any(y[0] == 'call' and y[1] == 'tokio::time::timeout' for y in sources(ran, s.rv.ops[0], deep=True)) for x in okr for s in rt.blocks[x].stmts)
+                ok8 = made(okr) == ['Some'] and made(err) == ['None'] and some_from_ok and bool(calls) and ran.dominates(calls[0].idx, sw_.idx)
+        ctx.ob('R10.8', 'Elapsed maps to None, completion to Some (Result::ok)', ok8, ctx.where(rt), '', construct='runtime:elapsed-none')
 
     ctx.not_decided += ['every ordering of "deadline passes" against "slot freed / create finishes / recycle finishes" on a virtual clock: that is the behaviour of tokio::time::timeout and the tokio semaphore',
                         'the async-std arm of deadpool-runtime (does not build on the analysis toolchain)']
